@@ -140,13 +140,13 @@ package processors
 //@ ensures [by-type-sound] forall(k, int, forall(i, int, implies(0 <= k && k < len(properties) && (ByPtrType(properties[k]) || ByIfaceType(properties[k])) && len(old(properties[k].Injects)) <= i && i < len(properties[k].Injects), MetaOK(properties[k].Injects[i]) && d.Registry.DefDom[properties[k].Injects[i].Name()] && d.Registry.Def[properties[k].Injects[i].Name()] == properties[k].Injects[i] && ite(ByPtrType(properties[k]), RTypeOf(properties[k].Injects[i].Value) == TargetT(properties[k]), RImplements(RTypeOf(properties[k].Injects[i].Value), TargetT(properties[k])))), properties[k].Injects[i]), properties[k])
 //@ ensures [by-type-complete] forall(k, int, forall(n, string, implies(0 <= k && k < len(properties) && (ByPtrType(properties[k]) || ByIfaceType(properties[k])) && d.Registry.DefDom[n] && ite(ByPtrType(properties[k]), RTypeOf(d.Registry.Def[n].Value) == TargetT(properties[k]), RImplements(RTypeOf(d.Registry.Def[n].Value), TargetT(properties[k]))), 0 <= PosSnap[k][n] && len(old(properties[k].Injects)) + PosSnap[k][n] < len(properties[k].Injects) && properties[k].Injects[len(old(properties[k].Injects)) + PosSnap[k][n]] == d.Registry.Def[n])))
 //@ ensures [candidates-assignable] forall(k, int, forall(i, int, implies(0 <= k && k < len(properties) && Wire(properties[k]) && len(old(properties[k].Injects)) <= i && i < len(properties[k].Injects) && properties[k].Injects[i] != nil, RAssignable(RTypeOf(properties[k].Injects[i].Value), TargetT(properties[k])))))
-//@ ensures [earlier-candidates-kept] forall(k, int, forall(i, int, implies(0 <= k && k < len(properties) && 0 <= i && i < len(old(properties[k].Injects)), len(properties[k].Injects) >= len(old(properties[k].Injects)) && properties[k].Injects[i] == oldat(old(properties[k].Injects), i))))
+//@ ensures [earlier-candidates-kept] forall(k, int, forall(i, int, implies(0 <= k && k < len(properties) && 0 <= i && i < len(old(properties[k].Injects)), len(properties[k].Injects) >= len(old(properties[k].Injects)) && properties[k].Injects[i] == oldat(old(properties[k].Injects), i)), properties[k].Injects[i]), properties[k])
 //@ ensures [others-untouched] forall(k, int, implies(0 <= k && k < len(properties) && !ByName(properties[k]) && !ByPtrType(properties[k]) && !ByIfaceType(properties[k]), properties[k].Injects == old(properties[k].Injects)), properties[k]) && forall(p, *component_definition.Property, implies(forall(k, int, implies(0 <= k && k < len(properties), properties[k] != p)), p.Injects == old(p.Injects)))
 //@ loop 1 invariant [by-name-candidate] forall(k, int, implies(0 <= k && k < _done && ByName(properties[k]), len(properties[k].Injects) == len(old(properties[k].Injects)) + 1 && properties[k].Injects[len(properties[k].Injects) - 1] == ite(d.Registry.DefDom[properties[k].TagVal] && RAssignable(RTypeOf(d.Registry.Def[properties[k].TagVal].Value), properties[k].Type), d.Registry.Def[properties[k].TagVal], nil)), properties[k])
 //@ loop 1 invariant [by-type-sound] forall(k, int, forall(i, int, implies(0 <= k && k < _done && (ByPtrType(properties[k]) || ByIfaceType(properties[k])) && len(old(properties[k].Injects)) <= i && i < len(properties[k].Injects), MetaOK(properties[k].Injects[i]) && d.Registry.DefDom[properties[k].Injects[i].Name()] && d.Registry.Def[properties[k].Injects[i].Name()] == properties[k].Injects[i] && ite(ByPtrType(properties[k]), RTypeOf(properties[k].Injects[i].Value) == TargetT(properties[k]), RImplements(RTypeOf(properties[k].Injects[i].Value), TargetT(properties[k])))), properties[k].Injects[i]), properties[k])
 //@ loop 1 invariant [by-type-complete] forall(k, int, forall(n, string, implies(0 <= k && k < _done && (ByPtrType(properties[k]) || ByIfaceType(properties[k])) && d.Registry.DefDom[n] && ite(ByPtrType(properties[k]), RTypeOf(d.Registry.Def[n].Value) == TargetT(properties[k]), RImplements(RTypeOf(d.Registry.Def[n].Value), TargetT(properties[k]))), 0 <= PosSnap[k][n] && len(old(properties[k].Injects)) + PosSnap[k][n] < len(properties[k].Injects) && properties[k].Injects[len(old(properties[k].Injects)) + PosSnap[k][n]] == d.Registry.Def[n])))
 //@ loop 1 invariant [candidates-assignable] forall(k, int, forall(i, int, implies(0 <= k && k < _done && Wire(properties[k]) && len(old(properties[k].Injects)) <= i && i < len(properties[k].Injects) && properties[k].Injects[i] != nil, RAssignable(RTypeOf(properties[k].Injects[i].Value), TargetT(properties[k])))))
-//@ loop 1 invariant [earlier-candidates-kept] forall(k, int, forall(i, int, implies(0 <= k && k < _done && 0 <= i && i < len(old(properties[k].Injects)), len(properties[k].Injects) >= len(old(properties[k].Injects)) && properties[k].Injects[i] == oldat(old(properties[k].Injects), i))))
+//@ loop 1 invariant [earlier-candidates-kept] forall(k, int, forall(i, int, implies(0 <= k && k < _done && 0 <= i && i < len(old(properties[k].Injects)), len(properties[k].Injects) >= len(old(properties[k].Injects)) && properties[k].Injects[i] == oldat(old(properties[k].Injects), i)), properties[k].Injects[i]), properties[k])
 //@ loop 1 invariant [bounds] 0 <= _done && _done <= len(properties) && DefInv(d.Registry)
 //@ loop 1 invariant [inputs-kept] forall(k, int, implies(0 <= k && k < len(properties), properties[k] == oldat(properties, k)))
 //@ loop 1 invariant [rest-untouched] forall(k, int, implies(_done <= k && k < len(properties), properties[k].Injects == old(properties[k].Injects)), properties[k])
@@ -167,12 +167,12 @@ package processors
 //@ assigns anyfield(component_definition.Property, Injects), MetasPos, Failed
 //@ ensures [no-error] result1 == nil
 //@ ensures [func-candidates-sound] forall(k, int, forall(i, int, implies(0 <= k && k < len(properties) && (FuncByPtr(properties[k]) || FuncByIface(properties[k])) && len(old(properties[k].Injects)) <= i && i < len(properties[k].Injects), MetaOK(properties[k].Injects[i]) && d.Registry.DefDom[properties[k].Injects[i].Name()] && d.Registry.Def[properties[k].Injects[i].Name()] == properties[k].Injects[i] && RHasMethod(RTypeOf(properties[k].Injects[i].Value), properties[k].TagVal) && ite(FuncByPtr(properties[k]), RTypeOf(properties[k].Injects[i].Value) == TargetT(properties[k]), RImplements(RTypeOf(properties[k].Injects[i].Value), TargetT(properties[k])))), properties[k].Injects[i]), properties[k])
-//@ ensures [earlier-candidates-kept] forall(k, int, forall(i, int, implies(0 <= k && k < len(properties) && 0 <= i && i < len(old(properties[k].Injects)), len(properties[k].Injects) >= len(old(properties[k].Injects)) && properties[k].Injects[i] == oldat(old(properties[k].Injects), i))))
+//@ ensures [earlier-candidates-kept] forall(k, int, forall(i, int, implies(0 <= k && k < len(properties) && 0 <= i && i < len(old(properties[k].Injects)), len(properties[k].Injects) >= len(old(properties[k].Injects)) && properties[k].Injects[i] == oldat(old(properties[k].Injects), i)), properties[k].Injects[i]), properties[k])
 //@ ensures [others-untouched] forall(k, int, implies(0 <= k && k < len(properties) && !FuncByPtr(properties[k]) && !FuncByIface(properties[k]), properties[k].Injects == old(properties[k].Injects)), properties[k]) && forall(p, *component_definition.Property, implies(forall(k, int, implies(0 <= k && k < len(properties), properties[k] != p)), p.Injects == old(p.Injects)))
 //@ loop 1 invariant [bounds] 0 <= _done && _done <= len(properties) && DefInv(d.Registry)
 //@ loop 1 invariant [inputs-kept] forall(k, int, implies(0 <= k && k < len(properties), properties[k] == oldat(properties, k)))
 //@ loop 1 invariant [func-candidates-sound] forall(k, int, forall(i, int, implies(0 <= k && k < _done && (FuncByPtr(properties[k]) || FuncByIface(properties[k])) && len(old(properties[k].Injects)) <= i && i < len(properties[k].Injects), MetaOK(properties[k].Injects[i]) && d.Registry.DefDom[properties[k].Injects[i].Name()] && d.Registry.Def[properties[k].Injects[i].Name()] == properties[k].Injects[i] && RHasMethod(RTypeOf(properties[k].Injects[i].Value), properties[k].TagVal) && ite(FuncByPtr(properties[k]), RTypeOf(properties[k].Injects[i].Value) == TargetT(properties[k]), RImplements(RTypeOf(properties[k].Injects[i].Value), TargetT(properties[k])))), properties[k].Injects[i]), properties[k])
-//@ loop 1 invariant [earlier-candidates-kept] forall(k, int, forall(i, int, implies(0 <= k && k < _done && 0 <= i && i < len(old(properties[k].Injects)), len(properties[k].Injects) >= len(old(properties[k].Injects)) && properties[k].Injects[i] == oldat(old(properties[k].Injects), i))))
+//@ loop 1 invariant [earlier-candidates-kept] forall(k, int, forall(i, int, implies(0 <= k && k < _done && 0 <= i && i < len(old(properties[k].Injects)), len(properties[k].Injects) >= len(old(properties[k].Injects)) && properties[k].Injects[i] == oldat(old(properties[k].Injects), i)), properties[k].Injects[i]), properties[k])
 //@ loop 1 invariant [rest-untouched] forall(k, int, implies(_done <= k && k < len(properties), properties[k].Injects == old(properties[k].Injects)), properties[k])
 //@ loop 1 invariant [others-untouched] forall(k, int, implies(0 <= k && k < len(properties) && !FuncByPtr(properties[k]) && !FuncByIface(properties[k]), properties[k].Injects == old(properties[k].Injects)), properties[k]) && forall(p, *component_definition.Property, implies(forall(k, int, implies(0 <= k && k < len(properties), properties[k] != p)), p.Injects == old(p.Injects)))
 //@ loop 1 invariant [old-lists-kept] forall(k, int, forall(i, int, implies(0 <= k && k < len(properties) && 0 <= i && i < len(old(properties[k].Injects)), oldat(old(properties[k].Injects), i) == old(properties[k].Injects)[i])))
